@@ -96,6 +96,7 @@ func verify(args []string) int {
 	keep := fs.Bool("keep", false, "keep SMT files")
 	verbose := fs.Bool("v", false, "verbose")
 	repo := fs.String("repo", "/repo", "repository")
+	noEvidence := fs.Bool("noevidence", false, "do not write the evidence file (selftest runs on scratch copies)")
 	fs.Parse(args)
 	start := time.Now()
 	seed, _ := strconv.Atoi(os.Getenv("VERIF_SEED"))
@@ -397,11 +398,15 @@ func verify(args []string) int {
 	}
 
 	// evidence
-	writeEvidence(*prop, *tier, seed, cfg, eng, results, outs, base, viols2names(viols), knownHit, tolerated, missing, canaryBad, undecided,
-		time.Since(start).Seconds(), loadS, genS, solveS, nClaimed, nDisClaimed)
+	if !*noEvidence {
+		writeEvidence(*prop, *tier, seed, cfg, eng, results, outs, base, viols2names(viols), knownHit, tolerated, missing, canaryBad, undecided,
+			time.Since(start).Seconds(), loadS, genS, solveS, nClaimed, nDisClaimed)
+	}
 	if *verbose {
 		for _, o := range outs {
-			fmt.Printf("  %-22s %-9s %6.2fs %s  [%s]\n", o.Status, o.Solver, o.Seconds, o.Obl.Name, o.Obl.Pos)
+			if o.Status != "discharged" && o.Status != "canary-ok" && o.Status != "structural-ok" {
+				fmt.Printf("  %-22s %-9s %6.2fs %s  [%s]\n", o.Status, o.Solver, o.Seconds, o.Obl.Name, o.Obl.Pos)
+			}
 		}
 		for _, r := range results {
 			for _, w := range r.Warnings {
